@@ -631,6 +631,9 @@ impl<'tcx> Cx<'tcx> {
             items.push(("span_hi", esc(&format!("{}:{}", hi.line, hi.col.0 + 1))));
         }
         items.push(("arg_count", format!("{}", body.arg_count)));
+        // can code outside the crate name this item? (a private helper that is inlined at every call site has no other callers)
+        let exported = matches!(kind, DefKind::Fn | DefKind::AssocFn) && tcx.effective_visibilities(()).is_reachable(did);
+        items.push(("exported", format!("{}", exported)));
         // generics of the nearest fn-like item
         let typeck_root = tcx.typeck_root_def_id(did.to_def_id());
         let gens = tcx.generics_of(typeck_root);
